@@ -209,7 +209,13 @@ func emit(c *hmain.Ctx, stream string, which int, cs hx.Sx, nontrivial bool) hx.
 		}
 	}
 	obs := c.Prop.Exec(which, cs)
-	if indexRangePanic(obs) && decodesOnTop(cs) && exhaustedNodePool(cs) {
+	chainCase := cs
+	if which == procWhich { // (real processor: the finding is classified on the same chain under the miniature, which ran it first)
+		if mini, bad := procChainCase(cs); bad == "" {
+			chainCase = mini
+		}
+	}
+	if indexRangePanic(obs) && decodesOnTop(chainCase) && exhaustedNodePool(chainCase) {
 		if !scalarListed {
 			c.W.Count("withheld_until_listed:" + scalarFindingID)
 			return obs
